@@ -78,7 +78,7 @@ def histories(draw):
         inputs.append([M.enc_inputs(draw(_inputs(sk["prog"], sk["classes"], iv, cluster))) for _ in range(draw(st.integers(2, 4)))])
     ops = []
     for _ in range(draw(st.integers(4, 40))):
-        k = draw(st.sampled_from(["new", "recompile", "recompile_same", "call", "call", "call", "cycle", "noise"]))
+        k = draw(st.sampled_from(["new", "recompile", "recompile_same", "call", "call", "call", "cycle", "noise", "cycle_nocall"]))
         ops.append([k, draw(st.integers(0, 5)), draw(st.integers(0, len(srcs) - 1)), draw(st.integers(0, 3))])
     case = {"sources": [s["prog"] for s in srcs], "inputs": inputs, "ops": ops}
     if draw(st.booleans()):
@@ -137,6 +137,12 @@ def judge(case):
             elif k == "recompile_same":
                 evs[e][0].recompile(texts[evs[e][1]])
                 observe(evs[e][1], ii, evs[e][0], "instance #%d after same-text recompile" % e)
+            elif k == "cycle_nocall":
+                # A -> B -> A with NO call in between (nothing may stay pending from the intermediate text)
+                cur = evs[e][1]
+                evs[e][0].recompile(texts[si])
+                evs[e][0].recompile(texts[cur])
+                observe(cur, ii, evs[e][0], "instance #%d after cycle A->B->A without a call in between" % e)
             elif k == "cycle":
                 cur = evs[e][1]
                 evs[e][0].recompile(texts[si])
@@ -178,6 +184,9 @@ CONFIGS = [
     {"PYTHONHASHSEED": "random", "LANG": "C.UTF-8", "LC_ALL": "C.UTF-8", "PYTHONUTF8": "0", "cwd": "/"},
     {"PYTHONHASHSEED": "12345", "LANG": "POSIX", "LC_ALL": "POSIX", "PYTHONUTF8": "1", "cwd": "tmp"},
     {"PYTHONHASHSEED": "99", "LANG": "tr_TR.UTF-8", "LC_ALL": "", "PYTHONUTF8": "1", "cwd": "/usr"},
+    # a working directory nothing can be written to (not even by root): importing / compiling must not need the cwd
+    {"PYTHONHASHSEED": "7", "LANG": "C.UTF-8", "LC_ALL": "C.UTF-8", "PYTHONUTF8": "1", "cwd": "/proc"},
+    {"PYTHONHASHSEED": "random", "LANG": "C", "LC_ALL": "C", "PYTHONUTF8": "0", "cwd": "/proc/self"},
 ]
 
 
@@ -190,7 +199,8 @@ def batches(draw, nprog, nconf):
         text = M.render(sk["prog"])
         for _ in range(draw(st.integers(6, 12))):
             items.append({"text": text, "inputs": M.enc_inputs(draw(_inputs(sk["prog"], sk["classes"], iv))), "multi": _multi(sk["prog"])})
-    confs = draw(st.lists(st.integers(0, len(CONFIGS) - 1), min_size=nconf, max_size=nconf, unique=True))
+    confs = draw(st.lists(st.integers(0, len(CONFIGS) - 3), min_size=nconf - 1, max_size=nconf - 1, unique=True))
+    confs.append(len(CONFIGS) - 1 - draw(st.integers(0, 1)))  # always one child in an unwritable working directory
     return {"batch": items, "configs": confs}
 
 
@@ -299,6 +309,7 @@ def neighbour_histories():
             ops += [["recompile", 0, 1, 0]] + [["call", 0, 1, j] for j in range(n)]                      # ev0: A -> B
             ops += [["recompile", 0, 0, 0]] + [["call", 0, 0, j] for j in range(n)]                      # ev0: B -> A
             ops += [["cycle", 1, 0, 3]] + [["call", 1, 1, j] for j in range(n)]                          # ev1: B -> A -> B
+            ops += [["cycle_nocall", 0, 1, 2]] + [["call", 0, 0, j] for j in range(n)]                   # ev0: A -> B -> A, no call between
             yield {"sources": [a, b], "inputs": [inputs, inputs], "ops": ops, "plain": True}
 
 
